@@ -95,6 +95,12 @@ FALSY_RELEVANT = {
     ('count', 'nvars'): '`nvars=0` must be refused for a function with a '
                         'non-empty support; treated as absent it is '
                         'replaced by the size of the support',
+    ('assert_operator_arity', 'v'):
+        'the C back ends pass Function handles, which define __len__: a '
+        'constant node of dd.cudd_zdd or dd.sylvan has length 0 and is '
+        'falsy, so a constant operand is refused as missing',
+    ('assert_operator_arity', 'w'):
+        'as for v (a constant third operand of ite)',
     ('collect_garbage', 'roots'): 'an empty collection of roots means '
                                   '"collect nothing" (swap passes the set '
                                   'of nodes it orphaned, which may be '
@@ -102,6 +108,12 @@ FALSY_RELEVANT = {
                                   'unreferenced node is collected, also '
                                   'those the per-level index of a running '
                                   'reordering still lists',
+}
+# relevance limited to the properties named (elsewhere the operands are
+# integers, for which 0 is not a reference anyway)
+FALSY_ONLY = {
+    ('assert_operator_arity', 'v'): {'C19'},
+    ('assert_operator_arity', 'w'): {'C19'},
 }
 # reviewed, and conflation does not touch a property (one line each)
 FALSY_NEUTRAL = {
@@ -113,8 +125,6 @@ FALSY_NEUTRAL = {
                            'not',
     ('apply', 'v'): '0 is not a reference',
     ('apply', 'w'): '0 is not a reference',
-    ('assert_operator_arity', 'v'): '0 is not a reference',
-    ('assert_operator_arity', 'w'): '0 is not a reference',
     ('dump', 'filetype'): 'the empty string is not a file type',
     ('dump', 'roots'): 'the stored roots are the given ones either way',
     ('_dump_bdd', 'roots'): 'as for dump',
@@ -195,6 +205,9 @@ def r_falsy(P, R):
                     continue
                 if t.id in opt:
                     why = FALSY_RELEVANT.get((f.name, t.id))
+                    only = FALSY_ONLY.get((f.name, t.id))
+                    if only is not None and R.prop not in only:
+                        why = None
                     if why is None:
                         # conflating an empty / zero argument with the
                         # absent one changes behaviour, but whether it
@@ -244,6 +257,43 @@ def r_falsy(P, R):
                     f'`{au.short(t, 40)}` in a Boolean context: {why}, '
                     'and is treated like a missing key',
                     unit=f.unit.rel, line=node.lineno)
+        # a comprehension that keeps the entries of a mapping argument
+        # whose VALUE is truthy drops False, 0 and empty values
+        a0 = fn.args
+        maps = {p.arg for p in a0.posonlyargs + a0.args + a0.kwonlyargs}
+        if a0.kwarg:
+            maps.add(a0.kwarg.arg)
+        for comp in au.walk_no_defs(fn):
+            if not isinstance(comp, (ast.DictComp, ast.ListComp,
+                                     ast.SetComp, ast.GeneratorExp)):
+                continue
+            for g in comp.generators:
+                it = g.iter
+                if not (isinstance(it, ast.Call) and au.call_name(it) in (
+                        'items', 'values') and isinstance(
+                            it.func, ast.Attribute) and isinstance(
+                                it.func.value, ast.Name)
+                        and it.func.value.id in maps):
+                    continue
+                tg = g.target
+                val = tg.elts[-1] if isinstance(
+                    tg, ast.Tuple) else tg
+                for cond in g.ifs:
+                    c = cond
+                    while isinstance(c, ast.UnaryOp) and isinstance(
+                            c.op, ast.Not):
+                        c = c.operand
+                    if isinstance(c, ast.Name) and isinstance(
+                            val, ast.Name) and c.id == val.id:
+                        R.violation(
+                            'R-FALSY', 'mapping-value', f.qualname,
+                            it.func.value.id,
+                            f'`{au.short(comp, 70)}` keeps the entries '
+                            f'of `{it.func.value.id}` whose value is '
+                            'truthy: an entry whose value is False, 0 or '
+                            'a constant function (len 0) is dropped as '
+                            'if it had not been given', unit=f.unit.rel,
+                            line=comp.lineno)
     R.holds('R-FALSY', f'functions behind {R.prop}',
             f'{n_opt} optional arguments and {n_get} lookup results are '
             'tested only with `is None`; no level or reference count in '
@@ -535,6 +585,14 @@ def r_lossy(P, R):
 r_lossy.NAME = 'R-LOSSY'
 
 
+SHARED_EXEMPT = {
+    ('dd.autoref.BDD.__init__', 'vars'):
+        'the wrapper exposes the table of the one manager it wraps '
+        '(swap keeps the alias valid by editing the dict in place; '
+        'R-INVMAP/order-maps checks that)',
+}
+
+
 def r_shared(P, R):
     """Two managers never share one mutable table."""
     n = 0
@@ -542,13 +600,18 @@ def r_shared(P, R):
         if not in_scope(P, R, f):
             continue
         for s in au.walk_no_defs(f.node):
-            if not isinstance(s, ast.Assign) or len(s.targets) != 1:
+            if isinstance(s, ast.Assign) and len(s.targets) == 1:
+                t = au.chain(s.targets[0])
+            elif isinstance(s, ast.AnnAssign) and s.value is not None:
+                t = au.chain(s.target)
+            else:
                 continue
-            t = au.chain(s.targets[0])
             v = au.chain(s.value)
             if not t or len(t) < 2 or t[-1] not in TABLES:
                 continue
             n += 1
+            if (f.qualname, t[-1]) in SHARED_EXEMPT:
+                continue
             if v and len(v) >= 2 and v[-1] in TABLES and v[:-1] != t[:-1]:
                 R.violation(
                     'R-ALIAS', 'shared-table', f.qualname,
@@ -588,6 +651,13 @@ def r_loopflag(P, R):
                                     s.value, ast.Constant) and isinstance(
                                         s.value.value, bool):
                         flags[s.targets[0].id] = s
+                for s in inner.body:
+                    if isinstance(s, ast.Assign) and len(
+                            s.targets) == 1 and isinstance(
+                                s.targets[0], ast.Name) and isinstance(
+                                    s.value, ast.Constant) and isinstance(
+                                        s.value.value, bool):
+                        flags.setdefault(s.targets[0].id, s)
                 if not flags:
                     continue
                 # deciding reads after the loop
@@ -611,6 +681,15 @@ def r_loopflag(P, R):
                                             au.is_name(x, name)
                                             for x in ast.walk(s.value)):
                             over = s
+                    if over is None:
+                        # reset INSIDE the loop: every iteration forgets
+                        # the previous ones
+                        for s in inner.body:
+                            if isinstance(s, ast.Assign) and len(
+                                    s.targets) == 1 and au.is_name(
+                                        s.targets[0], name) and isinstance(
+                                            s.value, ast.Constant):
+                                over = s
                     if over is not None:
                         R.violation(
                             'R-LOOPFLAG', 'last-iteration-only',
@@ -630,3 +709,281 @@ def r_loopflag(P, R):
             f'{n} flag(s) deciding an early exit after a loop',
             nontrivial=False)
 r_loopflag.NAME = 'R-LOOPFLAG'
+
+
+MUTATORS = {'update', 'add', 'append', 'extend', 'setdefault', 'insert',
+            'pop', 'popitem', 'clear', 'remove', 'discard', 'sort',
+            'reverse', 'difference_update', 'intersection_update',
+            'symmetric_difference_update'}
+ARGMUT_EXEMPT = {
+    ('dd.bdd.BDD.swap', 'all_levels'):
+        'the per-level index is the documented in/out argument that '
+        'carries the bookkeeping from one swap to the next',
+}
+
+
+def r_argmut(P, R):
+    """A public operation, and any operation that `_try_to_reorder` may
+    run twice, does not edit a container it was handed: the caller's
+    dictionary must still hold what the caller put there (it may be used
+    for the next call), and the retry after a reordering must see the
+    arguments of the first attempt."""
+    n = 0
+    for f in sorted(P.all_funcs(MODS), key=lambda f: f.qualname):
+        if not in_scope(P, R, f):
+            continue
+        decorated = '_try_to_reorder' in f.decorators
+        public = not f.name.startswith('_') and not f.name.startswith(
+            ('p_', 't_'))
+        if not (decorated or public):
+            continue
+        a = f.node.args
+        params = {p.arg for p in a.posonlyargs + a.args + a.kwonlyargs}
+        params -= {'self', 'cls'}
+        if not params:
+            continue
+        n += 1
+        # local aliases: `d = param`
+        alias = {p: p for p in params}
+        for s in sorted((x for x in au.walk_no_defs(f.node)
+                         if isinstance(x, ast.Assign)),
+                        key=lambda x: x.lineno):
+            if len(s.targets) == 1 and isinstance(
+                    s.targets[0], ast.Name) and isinstance(
+                        s.value, ast.Name) and s.value.id in alias:
+                if s.targets[0].id not in params:
+                    alias[s.targets[0].id] = alias[s.value.id]
+        # a parameter rebound to a fresh object before the edit is the
+        # function's own
+        rebound = dict()
+        for s in au.walk_no_defs(f.node):
+            if isinstance(s, ast.Assign):
+                for t in s.targets:
+                    if isinstance(t, ast.Name) and t.id in params and not (
+                            isinstance(s.value, ast.Name)):
+                        rebound.setdefault(t.id, s.lineno)
+        for node in au.walk_no_defs(f.node):
+            hit = None
+            if isinstance(node, (ast.Assign, ast.AugAssign, ast.Delete)):
+                tg = [node.target] if isinstance(
+                    node, ast.AugAssign) else node.targets
+                for t in tg:
+                    if isinstance(t, ast.Subscript) and isinstance(
+                            t.value, ast.Name) and t.value.id in alias:
+                        hit = t.value.id
+            if isinstance(node, ast.Call) and isinstance(
+                    node.func, ast.Attribute) and \
+                    node.func.attr in MUTATORS and isinstance(
+                        node.func.value, ast.Name) and \
+                    node.func.value.id in alias:
+                hit = node.func.value.id
+            if hit is None:
+                continue
+            prm = alias[hit]
+            if prm in rebound and rebound[prm] <= node.lineno:
+                continue
+            if (f.qualname, prm) in ARGMUT_EXEMPT:
+                continue
+            why = ('the retry after a reordering runs with the edited '
+                   'argument' if decorated else
+                   'the caller\'s container is changed under its hands')
+            R.violation(
+                'R-ARGMUT', 'argument-edited', f.qualname, prm,
+                f'`{au.short(node, 60)}` edits the container passed as '
+                f'`{prm}`' + (f' (through the alias `{hit}`)'
+                              if hit != prm else '') + f': {why}',
+                unit=f.unit.rel, line=node.lineno)
+    R.holds('R-ARGMUT', f'functions behind {R.prop}',
+            f'{n} public or retried function(s) with parameters: none '
+            'edits a container it was handed', nontrivial=False)
+r_argmut.NAME = 'R-ARGMUT'
+
+
+def r_identity(P, R):
+    """`is` / `is not` compares objects, not values: node numbers (and
+    strings) that are equal need not be the same object (CPython shares
+    small integers only)."""
+    n = 0
+    for f in sorted(P.all_funcs(MODS), key=lambda f: f.qualname):
+        if not in_scope(P, R, f):
+            continue
+        for c in au.walk_no_defs(f.node):
+            if not isinstance(c, ast.Compare):
+                continue
+            left = c.left
+            for op, right in zip(c.ops, c.comparators):
+                singleton = any(
+                    isinstance(x, ast.Constant) and (
+                        x.value is None or isinstance(x.value, bool)
+                        or x.value is Ellipsis) for x in (left, right))
+                if isinstance(op, (ast.Is, ast.IsNot)) and singleton:
+                    n += 1
+                elif isinstance(op, (ast.Is, ast.IsNot)):
+                    n += 1
+                    for side in (left, right):
+                        ch = au.chain(side) or []
+                        value_like = (ch and ch[-1] in (
+                            'node', 'level', 'var')) or (isinstance(
+                                side, ast.Constant) and isinstance(
+                                    side.value, (int, str))
+                                and not isinstance(side.value, bool)) or (
+                            isinstance(side, ast.Call) and au.call_name(
+                                side) in ('int', 'abs', 'str', 'len'))
+                        if value_like:
+                            R.violation(
+                                'R-LOSSY', 'identity-on-values',
+                                f.qualname, au.short(c, 40),
+                                f'`{au.short(c, 60)}` compares values '
+                                f'(`{au.short(side, 30)}`) by object '
+                                'identity: two equal node numbers above '
+                                '256 are different int objects, so equal '
+                                'references compare as different',
+                                unit=f.unit.rel, line=c.lineno)
+                            break
+                left = right
+    R.holds('R-LOSSY', f'identity tests behind {R.prop}',
+            f'{n} `is` / `is not` comparison(s): each on None, a Boolean, '
+            'a manager or a type', nontrivial=False)
+r_identity.NAME = 'R-LOSSY(identity)'
+
+
+def r_classstate(P, R):
+    """Tables and memos belong to one object.  A mutable object created
+    in a class body is shared by all instances; if methods write into it
+    through `self`, what one manager (or one parse) records shows up in
+    every other one."""
+    n = 0
+    for mod in sorted(MODS):
+        u = P.units.get(mod)
+        if u is None:
+            continue
+        for cname, cls in sorted(u.classes.items()):
+            methods = P.methods(mod, cname)
+            if not any(in_scope(P, R, m) for m in methods):
+                continue
+            for s in cls.body:
+                tgt = val = None
+                if isinstance(s, ast.Assign) and len(s.targets) == 1:
+                    tgt, val = s.targets[0], s.value
+                elif isinstance(s, ast.AnnAssign) and s.value is not None:
+                    tgt, val = s.target, s.value
+                if not isinstance(tgt, ast.Name):
+                    continue
+                mutable = isinstance(val, (ast.Dict, ast.List, ast.Set)) \
+                    or (isinstance(val, ast.Call) and au.call_name(val) in (
+                        'dict', 'list', 'set', 'defaultdict'))
+                if not mutable:
+                    continue
+                n += 1
+                name = tgt.id
+                writers = []
+                rebinds = []
+                for m in methods:
+                    for x in au.walk_no_defs(m.node):
+                        if isinstance(x, ast.Subscript) and isinstance(
+                                x.ctx, (ast.Store, ast.Del)) and au.chain(
+                                    x.value) == ['self', name]:
+                            writers.append(m.name)
+                        if isinstance(x, ast.Call) and isinstance(
+                                x.func, ast.Attribute) and \
+                                x.func.attr in MUTATORS and au.chain(
+                                    x.func.value) == ['self', name]:
+                            writers.append(m.name)
+                        if isinstance(x, ast.Assign) and m.name == \
+                                '__init__' and any(au.chain(t) == [
+                                    'self', name] for t in x.targets):
+                            rebinds.append(m.name)
+                if writers and not rebinds:
+                    R.violation(
+                        'R-ALIAS', 'class-level-state', f'{mod}.{cname}',
+                        name,
+                        f'`{au.short(s, 50)}` in the body of class '
+                        f'{cname} creates ONE object for all instances, '
+                        f'and {sorted(set(writers))} write into it '
+                        f'through `self.{name}`: entries made for one '
+                        f'{cname} are read by every other one',
+                        unit=u.rel, line=s.lineno)
+    R.holds('R-ALIAS', f'classes behind {R.prop}',
+            f'{n} mutable class-level attribute(s) written through self',
+            nontrivial=False)
+r_classstate.NAME = 'R-ALIAS(class-level state)'
+
+
+def r_owned(P, R):
+    """A manager's tables are its own objects: a table attribute is not
+    bound to an argument (the caller, and every other object built from
+    the same argument, would share it)."""
+    n = 0
+    for f in sorted(P.all_funcs(MODS), key=lambda f: f.qualname):
+        if not in_scope(P, R, f):
+            continue
+        params = set(f.params) - {'self', 'cls'}
+        for s in au.walk_no_defs(f.node):
+            if isinstance(s, ast.Assign) and len(s.targets) == 1:
+                t = au.chain(s.targets[0])
+            elif isinstance(s, ast.AnnAssign) and s.value is not None:
+                t = au.chain(s.target)
+            else:
+                continue
+            if not t or len(t) != 2 or t[0] != 'self' or \
+                    t[1] not in TABLES | {'roots'}:
+                continue
+            n += 1
+            if isinstance(s.value, ast.Name) and s.value.id in params:
+                R.violation(
+                    'R-ALIAS', 'caller-owned-table', f.qualname, t[1],
+                    f'`{au.short(s, 50)}` keeps the caller\'s object as '
+                    f'the manager\'s `{t[1]}` table: another manager '
+                    'built from the same object, or the caller editing '
+                    'it, changes this manager without moving its nodes',
+                    unit=f.unit.rel, line=s.lineno)
+    R.holds('R-ALIAS', f'table bindings behind {R.prop}',
+            f'{n} binding(s) of a table attribute, none to an argument',
+            nontrivial=False)
+r_owned.NAME = 'R-ALIAS(owned tables)'
+
+
+def r_unused(P, R):
+    """An argument that a function accepts and never looks at is an
+    argument that a wrapper forgot to pass on."""
+    n = 0
+    accepted = {
+        ('__exit__', 'ex_value'), ('__exit__', 'tb'),
+        ('_assert_valid_rename', 'u'), ('decref', 'kw'), ('dump', 'kw'),
+        ('__init__', 'node'), ('__init__', 'bdd'), ('_add_node', 'index'),
+        ('p_algebraic_dd', 'p'), ('t_comment', 't'),
+        ('t_trailing_comment', 'token'),
+        ('t_doubly_delimited_comment', 'token'),
+    }
+    for f in sorted(P.all_funcs(MODS), key=lambda f: f.qualname):
+        if not in_scope(P, R, f):
+            continue
+        a = f.node.args
+        ps = [p.arg for p in a.posonlyargs + a.args + a.kwonlyargs
+              if p.arg not in ('self', 'cls')]
+        if a.vararg:
+            ps.append(a.vararg.arg)
+        if a.kwarg:
+            ps.append(a.kwarg.arg)
+        body = [s for s in f.node.body if not (
+            isinstance(s, ast.Expr) and isinstance(s.value, ast.Constant))]
+        if not body or all(isinstance(s, (ast.Pass, ast.Raise))
+                           for s in body):
+            continue
+        used = {x.id for s in body for x in ast.walk(s)
+                if isinstance(x, ast.Name)}
+        n += 1
+        for p in ps:
+            if p in used or (f.name, p) in accepted:
+                continue
+            R.violation(
+                'R-UNUSED', 'argument-dropped', f.qualname, p,
+                f'{f.qualname} accepts `{p}` and never uses it: the '
+                'caller\'s choice is silently replaced by the default of '
+                'whatever the function calls', unit=f.unit.rel,
+                line=f.lineno)
+    R.holds('R-UNUSED', f'functions behind {R.prop}',
+            f'{n} function(s): every parameter is used (12 reviewed '
+            'exceptions: context-manager and PLY signatures, `**kw` of '
+            'wrappers that take no options)', nontrivial=False)
+r_unused.NAME = 'R-UNUSED'
